@@ -641,7 +641,7 @@ class Array(metaclass=MetaArray):
         if hasattr(self._itemtype, "_dtype"):
             arr = self._buffer.to_nplike(
                 self._offset + self._data_offset, self._itemtype._dtype, cshape
-            ).transpose(self._order)
+            ).transpose(np.argsort(mk_order(self._order, shape)))
             assert arr.strides == self._strides
             return arr
         else:
@@ -653,7 +653,7 @@ class Array(metaclass=MetaArray):
         if hasattr(self._itemtype, "_dtype"):
             arr = self._buffer.to_nparray(
                 self._offset + self._data_offset, self._itemtype._dtype, cshape
-            ).transpose(self._order)
+            ).transpose(np.argsort(mk_order(self._order, shape)))
             assert arr.strides == self._strides
             return arr
         else:
